@@ -23,6 +23,7 @@ CONSTANTS InSession,      \* TRUE: V2Session.SendCommand; FALSE: V2Sessionless.S
           EnvKinds,       \* enabled environment outcomes
           EnvCodes,       \* completion-code classes the environment may answer with
           DupCodes,       \* ... for delayed and duplicated replies
+          StaleCodes,     \* ... for replies that belong to another command
           NeedsBody,      \* commands whose response layer cannot decode an empty body
 
           G_Flag, G_Sid, G_Match, G_Rebuild, G_PreInc, G_Temp, G_Terminal
@@ -31,7 +32,7 @@ Codes == {"ok", "err", "busy", "tmo"}
 Temporary == {"busy", "tmo"}             \* node busy 0xC0, timeout 0xC3 (completion_code.go: IsTemporary)
 AllKinds == {"final", "garbage", "trunc", "lost", "xerr", "late", "dup", "stale",
              "badsig", "unauth", "wrongsid", "badpad"}
-ASSUME EnvKinds \subseteq AllKinds /\ EnvCodes \subseteq Codes /\ DupCodes \subseteq Codes
+ASSUME EnvKinds \subseteq AllKinds /\ EnvCodes \subseteq Codes /\ DupCodes \subseteq Codes /\ StaleCodes \subseteq Codes
 
 VARIABLES pc,       \* "idle" | "attempt" | "env" | "recv"
           calls,    \* number of calls started
@@ -102,7 +103,7 @@ Outcome(o) ==   \* datagrams arriving <<now, late>> for outcome o
     [] o.kind = "xerr"     -> << <<>>, <<>> >>
     [] o.kind = "late"     -> << <<>>, <<[Auth(c, o.cc) EXCEPT !.kind = "late"]>> >>
     [] o.kind = "dup"      -> << <<Auth(c, o.cc)>>, <<[Auth(c, o.cc) EXCEPT !.kind = "dup"]>> >>
-    [] o.kind = "stale"    -> << <<[Auth(o.other, "ok") EXCEPT !.kind = "stale"]>>, <<>> >>
+    [] o.kind = "stale"    -> << <<[Auth(o.other, o.cc) EXCEPT !.kind = "stale"]>>, <<>> >>
     [] o.kind = "badsig"   -> << <<[Auth(c, "ok") EXCEPT !.sig = FALSE, !.kind = "badsig"]>>, <<>> >>
     [] o.kind = "unauth"   -> << <<[Auth(c, "ok") EXCEPT !.sig = FALSE, !.flag = FALSE, !.sid = "null", !.kind = "unauth"]>>, <<>> >>
     [] o.kind = "wrongsid" -> << <<[Auth(c, "ok") EXCEPT !.sid = "other", !.kind = "wrongsid"]>>, <<>> >>
@@ -113,7 +114,7 @@ Outcomes ==
       plain(k) == {[kind |-> k, cc |-> "ok"]}
       sess == IF InSession THEN {"badsig", "unauth", "wrongsid", "badpad"} ELSE {}
   IN  UNION { IF k \in {"final", "late", "dup"} THEN cc(k)
-              ELSE IF k = "stale" THEN {[kind |-> k, cc |-> "ok", other |-> x] : x \in OtherCmds(cur.cmd)}
+              ELSE IF k = "stale" THEN {[kind |-> k, cc |-> y, other |-> x] : x \in OtherCmds(cur.cmd), y \in StaleCodes}
               ELSE IF k \in sess \cup {"garbage", "trunc", "lost", "xerr"} THEN plain(k)
               ELSE {} : k \in EnvKinds }
 
